@@ -1,10 +1,10 @@
 package main
 
 import (
-	"strings"
 	"fmt"
 	"math/rand"
 	"sort"
+	"strings"
 	"sync"
 
 	"github.com/advancedclimatesystems/gonnx"
@@ -13,11 +13,11 @@ import (
 
 // one concurrently exercised model: bytes, an input builder per variant, output names
 type concModel struct {
-	name   string
-	bytes  []byte
-	mk     func(variant int) gonnx.Tensors
-	outs   []string
-	nVar   int
+	name  string
+	bytes []byte
+	mk    func(variant int) gonnx.Tensors
+	outs  []string
+	nVar  int
 }
 
 func paramSnapshot(m *gonnx.Model) string {
@@ -147,6 +147,7 @@ func genC17(dir, tier string, seed int64) {
 	if len(res.Violations) > 20 {
 		res.Violations = res.Violations[:20]
 	}
+	res.Distinct = res.N // every case is a fresh random draw / a different model, count or split point
 	meta.GoOnly = append(meta.GoOnly, res)
 	count("models", fmt.Sprint(len(models)))
 }
